@@ -246,6 +246,13 @@ pub fn c17(thorough: bool, seed: u64, _threads: usize) -> Json {
     dirs.push(".".to_string());
     dirs.push("c17rel".to_string());
     dirs.push("c17rel/inner".to_string());
+    // existing relative directories whose names look like flags or negative numbers: the token behind a value-taking
+    // flag is its value, whatever it looks like
+    for odd in ["-pub", "-s", "--overwrite", "-d", "-9", "--", "-"] {
+        if std::fs::create_dir_all(format!("./{odd}")).is_ok() {
+            dirs.push(odd.to_string());
+        }
+    }
     let s = |v: &[&str]| v.iter().map(|x| x.to_string()).collect::<Vec<_>>();
     let settings: Vec<Setting> = vec![
         Setting { spellings: &["-i", "--ip-address"], values: s(&["127.0.0.1", "0.0.0.0", "::1", "192.168.1.5"]) },
